@@ -20,7 +20,7 @@ RULE = ("histories of 10..300 IF.LDM.3/4 operations over 3 provider ids, 2 consu
 ASSUMPTIONS = ["expiry is judged only outside +-1 s of timestamp+validity and 'gone' only after an explicit maintenance pass later than that (reactive passes may or may not have run)",
                "objects are placed inside the LDM's area of maintenance; the auditor consumer id is registered once and never touched by the history",
                "registration follows the LDM's own register/deregister responses; only their consequences are judged"]
-REQUIRED_COUNTERS = ["steps", "full_comparisons", "adds_ok", "updates", "deletes", "expiry_gone_checked", "refusals_checked"]
+REQUIRED_COUNTERS = ["maintenance_faults_injected", "steps", "full_comparisons", "adds_ok", "updates", "deletes", "expiry_gone_checked", "refusals_checked"]
 
 PROVIDERS = (2, 1, 16)        # CAM, DENM, VAM application ids
 CONSUMERS = (2, 16)
@@ -53,8 +53,11 @@ def gen(rng, maxlen):
             ops.append({"op": "query", "app": rng.choice(CONSUMERS + (9,)), "types": rng.choice(((2,), (1,), (16,), (2, 1), TYPES))})
         elif r < 0.93:
             ops.append({"op": "adv", "dt": rng.choice((0.2, 0.6, 1.0, 1.5, 3.0, 7.0, 30.0, 61.0))})
-        else:
+        elif r < 0.98:
             ops.append({"op": "maint"})
+        else:
+            # fault injection: the next maintenance pass (explicit, or the reactive one inside an add) fails once
+            ops.append({"op": "fault_next_maintenance"})
     return {"db": "Dictionary", "ops": ops}
 
 
@@ -85,6 +88,25 @@ def run_case(c, res):
         all_ids = set()
         last_maint_its = -1
         last_maint_step = -1
+        # every COMPLETED maintenance pass is observed (explicit ones and the reactive ones inside add); a pass can be made
+        # to fail once (injected storage fault): the LDM must go on working afterwards
+        maint = ldm.ldm_maintenance
+        orig_collect = maint.collect_trash
+        armed = [False]
+        passes = []            # (its time, monotonic time) of completed passes
+        orphans = []           # records stored by an add whose reactive pass then failed (identifier unknown to the caller)
+
+        def collect_trash_hooked():
+            if armed[0]:
+                armed[0] = False
+                res.count("maintenance_faults_injected")
+                raise RuntimeError("injected fault: storage error during the maintenance pass")
+            r_ = orig_collect()
+            passes.append((H.its_now(clock), clock.now()))
+            return r_
+        maint.collect_trash = collect_trash_hooked
+        reactive = hasattr(maint, "last_trash_collection_time")
+        t_last_pass = clock.now()
         lost = {}              # id -> reason of a judged-lost object (so that one defect is reported once per object)
 
         def perms(op):
@@ -128,8 +150,28 @@ def run_case(c, res):
                         loc = H.location(H.LDM_LAT + rng.choice((-1, 1)) * rng.randrange(3000, 40000), H.LDM_LON + rng.choice((-1, 1)) * rng.randrange(3000, 40000))
                     ts = now_its + op["ts_off"]
                     req = AddDataProviderReq(op["app"], TimestampIts(ts), loc, msg, TimeValidity(op["validity"]))
-                    r = i3.add_provider_data(req)
-                    if op["app"] in providers:
+                    n_pass = len(passes)
+                    pass_due = reactive and op["app"] in providers and clock.now() - t_last_pass >= 1.0 + 1e-6
+                    try:
+                        r = i3.add_provider_data(req)
+                    except RuntimeError as e_:
+                        if "injected fault" not in repr(e_):
+                            raise
+                        # the object was stored before the pass failed; the caller never learnt its identifier
+                        orphans.append(norm(copy.deepcopy(req.to_dict())))
+                        res.count("adds_interrupted_by_a_maintenance_fault")
+                        r = None
+                    if len(passes) > n_pass:
+                        t_last_pass = passes[-1][1]
+                        last_maint_its, last_maint_step = passes[-1][0], step
+                    elif pass_due and r is not None:
+                        # reactive maintenance: an accepted add more than the collection interval after the last completed
+                        # pass runs one -- a pass that silently does not happen leaves expired objects visible for ever
+                        res.count("reactive_pass_due_but_not_run")
+                        last_maint_its, last_maint_step = H.its_now(clock), step
+                    if r is None:
+                        pass
+                    elif op["app"] in providers:
                         if not isinstance(r.data_object_id, int) or r.data_object_id < 0:
                             res.violation("C12:add-by-registered-provider-refused", f"app {op['app']}: id {r.data_object_id}", ctx)
                         else:
@@ -221,9 +263,16 @@ def run_case(c, res):
                 elif kind == "adv":
                     clock.advance(op["dt"])
                 elif kind == "maint":
-                    ldm.ldm_maintenance.collect_trash()
-                    last_maint_its = H.its_now(clock)
-                    last_maint_step = step
+                    try:
+                        ldm.ldm_maintenance.collect_trash()
+                        last_maint_its = H.its_now(clock)
+                        last_maint_step = step
+                        t_last_pass = clock.now() if not reactive else t_last_pass
+                    except RuntimeError as e_:
+                        if "injected fault" not in repr(e_):
+                            raise
+                elif kind == "fault_next_maintenance":
+                    armed[0] = True
             except Exception as e:  # noqa
                 res.violation(f"C12:operation-raises-{type(e).__name__}[{kind}]", f"{e!r}", ctx)
                 return
@@ -284,7 +333,7 @@ def run_case(c, res):
             # nothing else may be stored
             for g in got:
                 if g not in expected_recs:
-                    if any(l for l in lost.values()):
+                    if any(l for l in lost.values()) or g in orphans:
                         continue
                     res.violation(f"C12:unexpected-object-returned[after-{kind}]", f"{str(g)[:200]}", ctx)
                     break
